@@ -908,6 +908,264 @@ def normalise_ifexp(tree):
     return n
 
 
+
+# ------------------------------------------------------------------------------------------ generator helpers
+class GenHelper:
+    """a new private generator `def g(self, ...): PREFIX; loop: ... yield V ...` (one yield statement inside one loop, reached
+    through `if` nesting only; no return; nothing after the loop).  Consuming it with a comprehension / list() / for statement is
+    the loop itself with the consumer's code in place of the yield: the interleaving of generator and consumer is unchanged."""
+
+    def __init__(self, fn, cls):
+        self.fn, self.cls, self.name = fn, cls, fn.name
+        a = fn.args
+        allp = [x.arg for x in a.posonlyargs + a.args]
+        self.self_name = allp[0] if cls is not None else None
+        self.params = allp[1:] if cls is not None else allp
+        nd = len(a.defaults)
+        self.defaults = dict(zip(allp[len(allp) - nd:], a.defaults)) if nd else {}
+        body = list(fn.body)
+        if body and isinstance(body[0], ast.Expr) and isinstance(body[0].value, ast.Constant) and isinstance(body[0].value.value, str):
+            body = body[1:]
+        self.prefix, self.loop = body[:-1], body[-1]
+        self.locals = {n.id for n in ast.walk(fn) if isinstance(n, ast.Name) and isinstance(n.ctx, ast.Store)}
+        self.free = {n.id for n in ast.walk(ast.Module(body=body, type_ignores=[])) if isinstance(n, ast.Name) and isinstance(n.ctx, ast.Load)} \
+            - self.locals - set(allp)
+
+
+def _gen_candidate(fn, cls):
+    if fn.decorator_list or isinstance(fn, ast.AsyncFunctionDef):
+        return None
+    a = fn.args
+    if a.kwonlyargs or a.kwarg or a.vararg or (cls is not None and not (a.posonlyargs + a.args)):
+        return None
+    body = list(fn.body)
+    if body and isinstance(body[0], ast.Expr) and isinstance(body[0].value, ast.Constant) and isinstance(body[0].value.value, str):
+        body = body[1:]
+    if not body or not isinstance(body[-1], (ast.While, ast.For)) or body[-1].orelse:
+        return None
+    if not all(isinstance(s_, (ast.Assign, ast.AnnAssign, ast.AugAssign, ast.Expr, ast.Pass)) for s_ in body[:-1]):
+        return None
+    yields = [n for n in ast.walk(fn) if isinstance(n, (ast.Yield, ast.YieldFrom))]
+    if len(yields) != 1 or not isinstance(yields[0], ast.Yield) or yields[0].value is None:
+        return None
+    for n in ast.walk(fn):
+        if n is not fn and isinstance(n, (ast.Return, ast.Await, ast.Global, ast.Nonlocal, ast.FunctionDef, ast.AsyncFunctionDef, ast.ClassDef, ast.Lambda,
+                                          ast.Try, ast.With)):
+            return None
+        if isinstance(n, ast.Call) and ((isinstance(n.func, ast.Name) and n.func.id == fn.name) or (isinstance(n.func, ast.Attribute) and n.func.attr == fn.name)):
+            return None
+
+    def find(stmts):
+        for s_ in stmts:
+            if isinstance(s_, ast.Expr) and s_.value is yields[0]:
+                return True
+            if isinstance(s_, ast.If) and (find(s_.body) or find(s_.orelse)):
+                return True
+        return False
+
+    if not find(body[-1].body):
+        return None
+    return GenHelper(fn, cls)
+
+
+def _loop_level_jumps(stmts):
+    for s_ in stmts:
+        if isinstance(s_, (ast.Break, ast.Continue)):
+            return True
+        if isinstance(s_, (ast.For, ast.While, ast.FunctionDef, ast.AsyncFunctionDef, ast.ClassDef)):
+            continue
+        for field in ("body", "orelse", "finalbody"):
+            sub = getattr(s_, field, None)
+            if isinstance(sub, list) and sub and isinstance(sub[0], ast.stmt) and _loop_level_jumps(sub):
+                return True
+        if isinstance(s_, ast.Try) and any(_loop_level_jumps(h.body) for h in s_.handlers):
+            return True
+    return False
+
+
+class GenInliner:
+    def __init__(self, gens, gen_methods):
+        self.gens, self.gen_methods = gens, gen_methods
+        self.counter = 0
+        self.count = 0
+
+    def _target(self, call, cls_name, local_names):
+        if not isinstance(call, ast.Call):
+            return None
+        f = call.func
+        if isinstance(f, ast.Name) and f.id in self.gens and f.id not in local_names:
+            return self.gens[f.id]
+        if isinstance(f, ast.Attribute) and isinstance(f.value, ast.Name) and f.value.id == "self" and cls_name is not None and (cls_name, f.attr) in self.gen_methods:
+            return self.gen_methods[(cls_name, f.attr)]
+        return None
+
+    def _instantiate(self, h, call, consumer, st):
+        """statements replacing the consuming statement; consumer(value expr) -> statements put where the yield is"""
+        if any(k.arg is None for k in call.keywords) or any(isinstance(a_, ast.Starred) for a_ in call.args) or len(call.args) > len(h.params):
+            return None
+        given = dict(zip(h.params, call.args))
+        for k in call.keywords:
+            if k.arg not in h.params or k.arg in given:
+                return None
+            given[k.arg] = k.value
+        self.counter += 1
+        tag = f"_inl{9000 + self.counter}_"
+        pre, mapping = [], {}
+        for p_ in h.params:
+            if p_ in given:
+                a_ = given[p_]
+            elif p_ in h.defaults:
+                a_ = h.defaults[p_]
+            else:
+                return None
+            if pure(a_) and p_ not in h.locals and isinstance(a_, (ast.Constant, ast.Name)):
+                mapping[p_] = a_
+            else:
+                pre.append(ast.Assign(targets=[ast.Name(id=tag + p_, ctx=ast.Store())], value=copy.deepcopy(a_)))
+                if p_ in h.locals:
+                    pass  # renamed below together with the other locals
+                else:
+                    mapping[p_] = ast.Name(id=tag + p_, ctx=ast.Load())
+        rename = {l: tag + l for l in h.locals}
+        if h.self_name and h.self_name != "self":
+            mapping[h.self_name] = ast.Name(id="self", ctx=ast.Load())
+        sub = _Subst(mapping, rename)
+        prefix = [sub.visit(copy.deepcopy(s_)) for s_ in h.prefix]
+        loop = sub.visit(copy.deepcopy(h.loop))
+
+        def place(stmts):
+            out = []
+            for s_ in stmts:
+                if isinstance(s_, ast.Expr) and isinstance(s_.value, ast.Yield):
+                    out.extend(consumer(s_.value.value, tag))
+                    continue
+                if isinstance(s_, ast.If):
+                    s_.body = place(s_.body)
+                    s_.orelse = place(s_.orelse)
+                out.append(s_)
+            return out
+
+        loop.body = place(loop.body)
+        out = pre + prefix + [loop]
+        out = _plain_names(out, self._local_names, h)
+        for n in out:
+            for x in ast.walk(n):
+                x.lineno = getattr(st, "lineno", 1)
+                x.col_offset = getattr(st, "col_offset", 0)
+                x.end_lineno = getattr(st, "end_lineno", x.lineno)
+                x.end_col_offset = getattr(st, "end_col_offset", 0)
+        self.count += 1
+        return out
+
+    def _expand(self, st, cls_name, local_names):
+        self._local_names = local_names
+        # for X in g(..): BODY
+        if isinstance(st, ast.For) and not st.orelse:
+            h = self._target(st.iter, cls_name, local_names)
+            if h is None or (h.free & local_names) or _loop_level_jumps(st.body):
+                return None
+            return self._instantiate(h, st.iter, lambda v, tag: [ast.Assign(targets=[copy.deepcopy(st.target)], value=v)] + copy.deepcopy(st.body), st)
+        # T = [ELT for X in g(..) if C] / T = list(g(..)) / return <either>
+        if isinstance(st, ast.Assign) and len(st.targets) == 1 and isinstance(st.targets[0], ast.Name):
+            tname, val, ret = st.targets[0].id, st.value, False
+        elif isinstance(st, ast.AnnAssign) and isinstance(st.target, ast.Name) and st.value is not None:
+            tname, val, ret = st.target.id, st.value, False
+        elif isinstance(st, ast.Return) and st.value is not None:
+            tname, val, ret = None, st.value, True
+        else:
+            return None
+        if isinstance(val, ast.Call) and isinstance(val.func, ast.Name) and val.func.id == "list" and len(val.args) == 1 and not val.keywords:
+            call, elt, ifs, target = val.args[0], None, [], None
+        elif isinstance(val, ast.ListComp) and len(val.generators) == 1 and not val.generators[0].is_async:
+            g = val.generators[0]
+            call, elt, ifs, target = g.iter, val.elt, g.ifs, g.target
+        else:
+            return None
+        h = self._target(call, cls_name, local_names)
+        if h is None or (h.free & local_names):
+            return None
+        if tname is None:
+            self.counter += 1
+            tname = f"_inl{9000 + self.counter}_r"
+        if any(isinstance(n, ast.Name) and n.id == tname for n in ast.walk(val)):
+            return None
+
+        def consumer(v, tag):
+            if target is None:
+                return [ast.Expr(value=ast.Call(func=ast.Attribute(value=ast.Name(id=tname, ctx=ast.Load()), attr="append", ctx=ast.Load()), args=[v], keywords=[]))]
+            ren = {n.id: tag + "c_" + n.id for n in ast.walk(target) if isinstance(n, ast.Name)}
+            r = _Rename2(ren)
+            out = [ast.Assign(targets=[r.visit(copy.deepcopy(target))], value=v)]
+            app = ast.Expr(value=ast.Call(func=ast.Attribute(value=ast.Name(id=tname, ctx=ast.Load()), attr="append", ctx=ast.Load()),
+                                          args=[r.visit(copy.deepcopy(elt))], keywords=[]))
+            if ifs:
+                test = r.visit(copy.deepcopy(ifs[0])) if len(ifs) == 1 else ast.BoolOp(op=ast.And(), values=[r.visit(copy.deepcopy(c)) for c in ifs])
+                out.append(ast.If(test=test, body=[app], orelse=[]))
+            else:
+                out.append(app)
+            if isinstance(target, ast.Name) and pure(v):
+                # the comprehension variable is a plain copy of a pure value: use the value itself
+                cname = ren[target.id]
+                sub_ = _Subst({cname: v}, {})
+                out = [sub_.visit(x) for x in out[1:]]
+            return out
+
+        body = self._instantiate(h, call, consumer, st)
+        if body is None:
+            return None
+        init = ast.copy_location(ast.Assign(targets=[ast.Name(id=tname, ctx=ast.Store())], value=ast.List(elts=[], ctx=ast.Load())), st)
+        out = [init] + body
+        if ret:
+            out.append(ast.copy_location(ast.Return(value=ast.Name(id=tname, ctx=ast.Load())), st))
+        for n in out:
+            ast.fix_missing_locations(n)
+        return out
+
+    def run_body(self, stmts, cls_name, local_names):
+        out = []
+        for st in stmts:
+            if isinstance(st, (ast.FunctionDef, ast.AsyncFunctionDef)):
+                self.run_function(st, cls_name)
+                out.append(st)
+                continue
+            if isinstance(st, ast.ClassDef):
+                for m in st.body:
+                    if isinstance(m, (ast.FunctionDef, ast.AsyncFunctionDef)):
+                        self.run_function(m, st.name)
+                out.append(st)
+                continue
+            rep = self._expand(st, cls_name, local_names)
+            if rep is not None:
+                out.extend(rep)
+                continue
+            for field in ("body", "orelse", "finalbody"):
+                sub = getattr(st, field, None)
+                if isinstance(sub, list) and sub and isinstance(sub[0], ast.stmt):
+                    setattr(st, field, self.run_body(sub, cls_name, local_names))
+            if isinstance(st, ast.Try):
+                for h in st.handlers:
+                    h.body = self.run_body(h.body, cls_name, local_names)
+            out.append(st)
+        return out
+
+    def run_function(self, fn, cls_name):
+        local_names = {a.arg for a in fn.args.posonlyargs + fn.args.args + fn.args.kwonlyargs}
+        for n in ast.walk(fn):
+            if isinstance(n, ast.Name) and isinstance(n.ctx, ast.Store):
+                local_names.add(n.id)
+        fn.body = self.run_body(fn.body, cls_name, local_names)
+
+
+class _Rename2(ast.NodeTransformer):
+    def __init__(self, mapping):
+        self.mapping = mapping
+
+    def visit_Name(self, node):
+        if node.id in self.mapping:
+            return ast.copy_location(ast.Name(id=self.mapping[node.id], ctx=node.ctx), node)
+        return node
+
+
 # ------------------------------------------------------------------------------------------ entry point
 def normalise_program(trees):
     """trees: path -> ast.Module (mutated in place).  Returns {path: number of inlined call sites}."""
@@ -931,6 +1189,24 @@ def normalise_program(trees):
         if known is None:
             continue
         helpers, methods = {}, {}
+        gens, gen_methods = {}, {}
+        for st in tree.body:
+            if isinstance(st, ast.FunctionDef) and st.name not in known:
+                g_ = _gen_candidate(st, None)
+                if g_ is not None:
+                    gens[st.name] = g_
+            elif isinstance(st, ast.ClassDef):
+                for m in st.body:
+                    if isinstance(m, ast.FunctionDef) and f"{st.name}.{m.name}" not in known and method_names.get(m.name) == 1 \
+                            and not (m.name.startswith("__") and m.name.endswith("__")):
+                        g_ = _gen_candidate(m, st)
+                        if g_ is not None:
+                            gen_methods[(st.name, m.name)] = g_
+        gen_total = 0
+        if gens or gen_methods:
+            gi = GenInliner(gens, gen_methods)
+            tree.body = gi.run_body(tree.body, None, set())
+            gen_total = gi.count
         for st in tree.body:
             if isinstance(st, ast.FunctionDef) and st.name not in known:
                 h = _candidate(st, None)
@@ -943,9 +1219,9 @@ def normalise_program(trees):
                         h = _candidate(m, st)
                         if h is not None:
                             methods[(st.name, m.name)] = h
-        if not helpers and not methods:
+        if not helpers and not methods and not gen_total:
             continue
-        total = 0
+        total = gen_total
         for _round in range(4):
             inl = Inliner(helpers, methods)
             inl.run_module(tree)
@@ -977,7 +1253,7 @@ def normalise_program(trees):
                         imported |= {a.name for a in n.names}
                     elif isinstance(n, ast.Attribute):
                         imported.add(n.attr)
-            cand = {h.fn for h in list(helpers.values()) + list(methods.values())}
+            cand = {h.fn for h in list(helpers.values()) + list(methods.values()) + list(gens.values()) + list(gen_methods.values())}
             for fn_ in cand:
                 nm = fn_.name
                 if not nm.startswith("_") or nm in imported:
